@@ -1,12 +1,27 @@
 package main
 
+import (
+	"encoding/json"
+	"os"
+	"path/filepath"
+)
+
 // Per-property statements of bounds, what lies outside them, stubs and
-// assumptions; copied into the evidence file next to the measured counts.
+// assumptions (/verif/meta.json); copied into the evidence file next to the
+// measured counts.
 type propMeta struct {
-	Bounds      []string
-	Outside     []string
-	Stubs       []string
-	Assumptions []string
+	Bounds      []string `json:"bounds"`
+	Outside     []string `json:"outside"`
+	Stubs       []string `json:"stubs"`
+	Assumptions []string `json:"assumptions"`
 }
 
 var harnessMeta = map[string]propMeta{}
+
+func loadMeta(verif string) {
+	b, err := os.ReadFile(filepath.Join(verif, "meta.json"))
+	if err != nil {
+		return
+	}
+	json.Unmarshal(b, &harnessMeta)
+}
